@@ -92,6 +92,7 @@ step = st.one_of(
     st.tuples(st.just("proxyfor"), st.sampled_from([0, 1, 2, 3, 4])),
     st.tuples(st.just("registered")),
     st.tuples(st.just("unregister_instance")),
+    st.tuples(st.just("unregister_daemon_object")),
     st.tuples(st.just("drop"), st.sampled_from([0, 1, 2, 3, 4])),
     st.tuples(st.just("daemon_ping")),
 ).map(list)
@@ -256,6 +257,23 @@ def run_case(case, servertype=None, keep=False):
                     if rid not in d.objectsById:
                         viol("unregister-instance-removed-class", "%s: unregistering an instance of the class registered under %r removed the class registration" % (label, rid))
                 if V:
+                    break
+            elif op == "unregister_daemon_object":
+                # the daemon's own object, handed to unregister() as an OBJECT: must not go away either
+                own = d.objectsById.get("Pyro.Daemon")
+                if own is None:
+                    viol("daemon-object-gone", "%s: the daemon's own object is not in the table any more" % label)
+                    break
+                try:
+                    d.unregister(own)
+                except errors.DaemonError:
+                    pass
+                except Exception as x:
+                    viol("unregister-raises", "%s raised %r" % (label, x))
+                    break
+                own = None
+                if "Pyro.Daemon" not in d.objectsById:
+                    viol("daemon-object-gone", "%s: unregister(<the daemon's own object>) removed the reserved id" % label)
                     break
             elif op == "unregister_obj":
                 k = s[1]
@@ -432,6 +450,11 @@ def _labels(case):
 
 
 CATALOGUE = [
+    [["register", 0, "x", False, True], ["register", 2, "y", False, False], ["unregister_obj", 2], ["give", 0], ["call", "x"], ["give", 2], ["registered"]],
+    [["register", 0, "x", False, True], ["register", 2, "y", False, False], ["unregister_id", "y"], ["give", 0], ["uri", 0], ["call", "x"]],
+    [["register", 1, "x", False, False], ["register", 3, "y", False, True], ["unregister_id", "y"], ["give", 1], ["give", 3], ["unregister_obj", 1], ["give", 1]],
+    [["register", 0, None, False, False], ["register", 2, None, False, True], ["drop", 2], ["give", 0], ["call", "gen0"], ["registered"]],
+    [["unregister_daemon_object"], ["daemon_ping"], ["registered"], ["register", 0, "x", False, False], ["call", "x"], ["unregister_daemon_object"], ["registered"]],
     [["register", 0, "x", False, True], ["register", 0, "x", True, False], ["drop", 0], ["call", "x"], ["registered"]],
     [["register", 0, "x", False, False], ["register", 0, "x", True, True], ["give", 0], ["drop", 0], ["call", "x"], ["registered"]],
     [["register", 1, "x", False, True], ["register", 1, "x", True, False], ["give", 1], ["unregister_obj", 1], ["give", 1], ["drop", 1], ["registered"]],
